@@ -4,6 +4,7 @@ child (it releases the child itself and waits for its death through the kernel, 
 billiard) and judged by ProcMonitor.tla."""
 import os
 import signal
+import threading
 import time
 
 import billiard
@@ -51,8 +52,23 @@ def scenario(method, how, schedule):
             rec({'e': 'is_alive', 'ret': bool(p.is_alive())})
         elif kind == 'join_timed':
             t0 = time.monotonic()
-            p.join(JOIN_T)
-            el = time.monotonic() - t0
+            done = []
+            th = threading.Thread(target=lambda: (p.join(JOIN_T), done.append(time.monotonic())), daemon=True)
+            th.start()
+            th.join(JOIN_T + SLACK + 3.0)
+            if not done:
+                # join(timeout) is still blocked long after its timeout: record that, then let the
+                # child go so that the call (and this scenario) can end
+                rec({'e': 'join_timed', 'intime': False, 'joined': False,
+                     'elapsed_ms': int((time.monotonic() - t0) * 1000)})
+                st['stuck_join'] = True
+                try:
+                    w.send_bytes(b'go')
+                except Exception:
+                    pass
+                th.join(15)
+                return
+            el = done[0] - t0
             joined = p._popen.returncode is not None
             rec({'e': 'join_timed', 'intime': el <= JOIN_T + SLACK, 'joined': joined,
                  'elapsed_ms': int(el * 1000)})
@@ -77,6 +93,8 @@ def scenario(method, how, schedule):
     try:
         for k in schedule[0]:
             observe(k)
+            if st.get('stuck_join'):
+                return obs
         w.send_bytes(b'go')
         if not _wait_really_dead(p, method):
             rec({'e': 'harness_timeout'})
@@ -99,6 +117,28 @@ def scenario(method, how, schedule):
                 p.join(2)
             except Exception:
                 pass
+    return obs
+
+
+def nested(outer, inner, how, si):
+    """the same scenario, observed by a parent that was itself started with `outer`"""
+    ctx = billiard.get_context(outer)
+    r, w = ctx.Pipe(duplex=False)
+    p = ctx.Process(target=targets.nested_scenario, args=(w, inner, list(how), si))
+    p.start()
+    w.close()
+    obs = None
+    if r.poll(60 * float(os.environ.get('VERIF_TIME_SCALE', '1'))):
+        try:
+            obs = r.recv()
+        except EOFError:
+            obs = None
+    p.join(10)
+    if p.is_alive():
+        p.terminate()
+    if obs is None:
+        st = {'method': inner, 'how': list(how), 'phase': 'new'}
+        obs = [{'act': {'e': 'init'}, 'state': st}, {'act': {'e': 'harness_timeout'}, 'state': st}]
     return obs
 
 
